@@ -327,3 +327,59 @@ Proof.
   - apply andb_true_iff in H as [Ha Hb]. destruct (IHa Ha) as [x ->]. destruct (IHb Hb) as [y ->].
     cbn [bind]. apply int_infix_release.
 Qed.
+
+(* ------------------------------------------------------------------ *)
+(** * Lines *)
+
+(** the lines on which integer evaluation is known to crash or to leave the
+    reference arithmetic: some class of the tree is non-empty. (The last
+    disjunct -- the Pratt model not building a tree from what the PEG model
+    produced -- has no known inhabitant; it is excluded rather than assumed away.) *)
+Definition Known_C19 (checks : bool) (line : str) : bool :=
+  match parse_calc line with
+  | POk ps =>
+    if has_dot line then false
+    else match pratt_tree (2 * tot ps + 1) ps with
+         | Ok t => negb (is_empty (classes checks t))
+         | _ => true
+         end
+  | _ => false
+  end.
+
+(** the tree of a line that parses *)
+Definition line_tree (line : str) : option (tree str) :=
+  match parse_calc line with
+  | POk ps => match pratt_tree (2 * tot ps + 1) ps with Ok t => Some t | _ => None end
+  | _ => None
+  end.
+
+Theorem eval_int_ref checks fuel ps t :
+  pratt_tree fuel ps = Ok t -> classes checks t = [] -> eval_int checks fuel ps = Ok (ref_eval t).
+Proof.
+  intros Ht Hc. unfold eval_int. unfold pratt_tree in Ht.
+  rewrite (pratt_fold _ _ _ _ int_prim (int_infix checks) fuel ps t Ht).
+  exact (eval_tree_ref checks t Hc).
+Qed.
+
+Theorem run_calculator_partial checks line r :
+  run_calculator checks line = RInt r -> Known_C19 checks line = false ->
+  exists t, line_tree line = Some t /\ r = Ok (ref_eval t).
+Proof.
+  unfold run_calculator, Known_C19, line_tree. destruct (parse_calc line) as [ps| |]; try discriminate.
+  destruct (has_dot line); [discriminate|]. intros H. injection H as <-.
+  destruct (pratt_tree (2 * tot ps + 1) ps) as [t| |] eqn:Et; try discriminate.
+  intros Hk. exists t. split; [reflexivity|]. apply eval_int_ref; [exact Et|].
+  destruct (classes checks t); [reflexivity|discriminate].
+Qed.
+
+(** the low 32 bits of 2^32 are zero: the implementation computes 2^0 *)
+Lemma trunc_witness : wrap64 (2 ^ 4294967296) = 0.
+Proof.
+  rewrite (wrap64_eqm _ 0); [reflexivity|].
+  replace 4294967296 with (64 + 4294967232) by reflexivity.
+  rewrite Z.pow_add_r by lia. rewrite Z.mul_comm, Z.mod_mul by lia. reflexivity.
+Qed.
+
+(** text for examples *)
+From Coq Require Import String Ascii.
+Definition s2l (s : string) : str := List.map N_of_ascii (list_ascii_of_string s).
